@@ -315,4 +315,14 @@ def closed_form(b, ep):
     if b.mix == "electric_pv":
         used_pv = Fraction(ep["balance"]["prod"]["epus_by_srv_by_src"].get("EL_INSITU", {}).get("ACS", 0))
         return used_pv / demand
+    if b.mix == "heat_pump_pv_aux":
+        # ambient heat in full, plus the on-site electricity used for DHW less the share of it that feeds the auxiliaries
+        if any("EXCLUYE_SCOP" in kw.get("comment", "") for k, kw in b.lines if k in ("CONSUMO", "PRODUCCION")):
+            return None
+        el = use("ELECTRICIDAD")
+        aux = sum((sum(Fraction(v) for v in kw["values"]) for k, kw in b.lines if k == "AUX"), Fraction(0))
+        if el < Fraction(1, 100) or el + aux <= 0:
+            return None
+        used_pv = Fraction(ep["balance"]["prod"]["epus_by_srv_by_src"].get("EL_INSITU", {}).get("ACS", 0))
+        return (use("EAMBIENTE") + used_pv * (1 - aux / (el + aux))) / demand
     return None
